@@ -101,4 +101,15 @@ CHECKS = {
        'conditional headers (current / historical / garbage ETags, older / current / newer / malformed / pre-1970 dates). After every step the tile is read back from the backend and every response is '
        'checked against the four clauses of the property (stable validators and body, 304 for the current ETag, 304 only if a presented validator matches the stored tile, no-store for uncacheable fill tiles).',
   note='~2000 histories / 35000 judged requests per quick run. Single process, TZ=UTC; rewrites that change neither second nor size on sqlite are outside the oracle ((timestamp, size) ETags cannot distinguish them).'),
+ 'C09': dict(
+  category='exploration',
+  design_ref='DESIGN.md section 10',
+  technique='Hypothesis grammar fuzzing of all services + sys.addaudithook file-system sandbox (realpath at event time, per-request root allow-lists, wrapped os.stat) + planted bait files + (thorough) atheris/libFuzzer on raw (path, query) bytes',
+  text='~40k (quick) / ~640k (thorough) grammar-generated requests over every service and the MultiMapProxy prefix, with attacker dictionaries (dot segments, absolute paths, '
+       'backslashes, percent-encoded forms, NUL, long and non-ASCII values) in every slot (dimension values and names, WMTS REST dimension segments, tile indices, layer and app names, '
+       'static paths), against one deployment with 20 caches of all local backends, plus a deterministic dimension-escape matrix over all layers and (thorough) coverage-guided raw-byte '
+       'executions. Every audited file-system touch of each request is judged against the directories of the caches its layers use and the lock directory, and bait content planted in '
+       'sibling directories is searched in responses.',
+  note='No absence claim; touches inside C libraries without audit events (sqlite journals, PROJ) are not seen; POSIX only; one fixed deployment (no authorization, no S3/Redis/CouchDB/Azure backends). '
+       'os.stat probes outside the roots are counted, not judged.'),
 }
